@@ -200,6 +200,18 @@ func run[E any, P fields.Ptr[E]](c *mon.Ctx, f *fields.Field[E, P]) {
 			rec(c, id("Sub"), func() []byte { f.VecSub(res, a, b); return rawBytes(res) })
 			rec(c, id("Mul"), func() []byte { f.VecMul(res, a, b); return rawBytes(res) })
 			rec(c, id("ScalarMul"), func() []byte { s := sc; f.VecScalarMul(res, a, &s); return rawBytes(res) })
+			if off == 0 && (n <= 40 || n%16 <= 1) {
+				// special scalars: values that are special as integers (0, 1, -1, ...) and values whose in-memory
+				// (Montgomery) word is special (R^-1 is stored as 1, R as R^2 mod q, ...): a shortcut keyed on the wrong
+				// representation only exists in one of the implementations
+				for si, cls := range L.Cls {
+					switch cls {
+					case "small", "q-small", "R", "R^-1", "R^2", "-R":
+						sv := els[si]
+						rec(c, fmt.Sprintf("%s/Vector.ScalarMul/special-scalar-%s-%d/n%d", N, cls, si, n), func() []byte { s := sv; f.VecScalarMul(res, a, &s); return rawBytes(res) })
+					}
+				}
+			}
 			rec(c, id("Sum"), func() []byte { s := f.VecSum(a); return one(&s) })
 			rec(c, id("InnerProduct"), func() []byte { s := f.VecInnerProduct(a, b); return one(&s) })
 			// length contract: operands of different lengths are refused (panic) by every implementation alike; a
